@@ -464,11 +464,11 @@ func runC02(c *fw.Ctx) {
 	base := hx.NewStdEnv()
 	r := c.Rand("seq")
 	steps := c.Pick(40, 200)
-	for i := 0; i < c.PerShard(c.Pick(400, 6000)); i++ {
+	for i := 0; i < c.PerShard(c.Pick(2400, 40000)); i++ {
 		c02Sequence(c, base, r, fmt.Sprintf("seq-%d", i), steps)
 	}
 	r2 := c.Rand("conc")
-	for i := 0; i < c.PerShard(c.Pick(48, 600)); i++ {
+	for i := 0; i < c.PerShard(c.Pick(160, 3000)); i++ {
 		c02Concurrent(c, base, r2, fmt.Sprintf("conc-%d", i), 8, 50)
 	}
 }
